@@ -516,6 +516,8 @@ func formatString(w io.Writer, s String, opt OutputOptions) error {
 	pretty := opt.HasAny(OptPretty)
 	if wenc, ok := w.(*posWriter); ok {
 		if wenc.enc != nil {
+			// EncryptBytes may work in place (RC4); never hand it the caller's bytes.
+			l = bytes.Clone(l)
 			enc, err := wenc.enc.EncryptBytes(wenc.ref, l)
 			if err != nil {
 				return err
